@@ -679,6 +679,11 @@ func (r *Reader) Markdown() (string, error) {
 
 // MarkdownWithOptions returns presentation content as Markdown with options.
 func (r *Reader) MarkdownWithOptions(opts ExtractOptions) (string, error) {
+	return r.markdown(opts, 1)
+}
+
+// markdown renders the slides as Markdown with slide titles as headings of level titleLevel.
+func (r *Reader) markdown(opts ExtractOptions, titleLevel int) (string, error) {
 	slides := r.slides
 	if len(opts.SlideNumbers) > 0 {
 		slides = make([]*Slide, 0, len(opts.SlideNumbers))
@@ -696,9 +701,10 @@ func (r *Reader) MarkdownWithOptions(opts ExtractOptions) (string, error) {
 			result.WriteString("\n---\n\n")
 		}
 
-		// Slide title as H1
+		// Slide title as heading (H1 unless shifted by the caller)
 		if slide.Title != "" {
-			result.WriteString("# ")
+			result.WriteString(strings.Repeat("#", titleLevel))
+			result.WriteString(" ")
 			result.WriteString(slide.Title)
 			result.WriteString("\n\n")
 		}
@@ -797,8 +803,19 @@ func (r *Reader) MarkdownWithRAGOptions(extractOpts ExtractOptions, mdOpts rag.M
 		result.WriteString("\n---\n\n")
 	}
 
-	// Generate main content
-	md, err := r.MarkdownWithOptions(extractOpts)
+	// Generate main content; slide titles are level-1 headings shifted by HeadingLevelOffset
+	// and capped at MaxHeadingLevel (never outside 1..6)
+	titleLevel := 1 + mdOpts.HeadingLevelOffset
+	if titleLevel < 1 {
+		titleLevel = 1
+	}
+	if mdOpts.MaxHeadingLevel > 0 && titleLevel > mdOpts.MaxHeadingLevel {
+		titleLevel = mdOpts.MaxHeadingLevel
+	}
+	if titleLevel > 6 {
+		titleLevel = 6
+	}
+	md, err := r.markdown(extractOpts, titleLevel)
 	if err != nil {
 		return "", err
 	}
